@@ -412,7 +412,7 @@ func Inject(t *rapid.T, in Input, k int, allowed func(InjClass) bool) ([]byte, [
 				off = real[j-1].End
 			}
 		}
-		style := rapid.SampledFrom([]string{"/*", "/*", "//", "#"}).Draw(t, "style")
+		style := rapid.SampledFrom([]string{"/*", "/*", "/*", "//", "#"}).Draw(t, "style")
 		cl := InjClass{style, prev, next}
 		if allowed != nil && !allowed(cl) {
 			continue
